@@ -97,6 +97,7 @@ type fileSpec struct {
 	rawImps []string // extra imports by name (missing files, cycles, opts)
 	body    []string
 	useOpts bool
+	useLim  bool
 	wkt     []int // indexes into wktPool: well-known files imported (resolved as ready-made descriptors)
 }
 
@@ -264,6 +265,14 @@ func genCompileWLKinds(t *rapid.T, maxFiles int, kinds []int) CompileWL {
 			if k := rapid.IntRange(0, 7).Draw(t, "numOpt"); k < len(numericOptionLines) {
 				msg = append(msg, numericOptionLines[k])
 			}
+			if rapid.IntRange(0, 2).Draw(t, "oneofOpt") == 0 {
+				msg = append(msg, fmt.Sprintf("  oneof choice {\n    option (o.otag) = \"one%d\";\n    int32 c1 = %d;\n    string c2 = %d;\n  }", i, fieldNo+40, fieldNo+41))
+			}
+			if strings.HasPrefix(s.pkg, "p.") && rapid.IntRange(0, 1).Draw(t, "litExt") == 0 {
+				// an extension named relative to an ancestor package inside a message literal
+				s.useLim = true
+				msg = append(msg, "  option (o.cfg) = { v: 1 [lim.burst]: 3 };")
+			}
 		}
 		if s.syntax == "proto2" {
 			if k := rapid.IntRange(0, 9).Draw(t, "defaults"); k < len(defaultFieldLines) {
@@ -339,7 +348,17 @@ func genCompileWLKinds(t *rapid.T, maxFiles int, kinds []int) CompileWL {
 			Imports: []string{"google/protobuf/descriptor.proto"},
 			Text: "syntax = \"proto2\";\npackage o;\nimport \"google/protobuf/descriptor.proto\";\n" +
 				"extend google.protobuf.MessageOptions {\n  optional string tag = 50001;\n  optional float ratio = 50003;\n  optional double dval = 50004;\n  optional sint32 sval = 50005;\n}\n" +
-				"extend google.protobuf.FileOptions {\n  optional int32 ftag = 50002;\n}\n",
+				"extend google.protobuf.FileOptions {\n  optional int32 ftag = 50002;\n}\n" +
+				"extend google.protobuf.OneofOptions {\n  optional string otag = 50010;\n}\n" +
+				"message Cfg {\n  optional int32 v = 1;\n  extensions 100 to 199;\n}\n" +
+				"extend google.protobuf.MessageOptions {\n  optional Cfg cfg = 50020;\n}\n",
+		}
+	}
+	if withOpts {
+		extra["lim.proto"] = PFile{
+			Name:    "lim.proto",
+			Imports: []string{"opts.proto"},
+			Text:    "syntax = \"proto2\";\npackage p.lim;\nimport \"opts.proto\";\nextend o.Cfg {\n  optional int32 burst = 101;\n}\n",
 		}
 	}
 	for _, s := range specs {
@@ -379,6 +398,10 @@ func genCompileWLKinds(t *rapid.T, maxFiles int, kinds []int) CompileWL {
 			b.WriteString("import \"opts.proto\";\n")
 			imps = append(imps, "opts.proto")
 		}
+		if s.useLim {
+			b.WriteString("import \"lim.proto\";\n")
+			imps = append(imps, "lim.proto")
+		}
 		for _, k := range s.wkt {
 			fmt.Fprintf(&b, "import %q;\n", wktPool[k].path)
 			imps = append(imps, wktPool[k].path)
@@ -390,6 +413,9 @@ func genCompileWLKinds(t *rapid.T, maxFiles int, kinds []int) CompileWL {
 		wl.Files = append(wl.Files, PFile{Name: s.name, Text: b.String(), Imports: imps})
 	}
 	if f, ok := extra["opts.proto"]; ok {
+		wl.Files = append(wl.Files, f)
+	}
+	if f, ok := extra["lim.proto"]; ok {
 		wl.Files = append(wl.Files, f)
 	}
 	switch rapid.IntRange(0, 11).Draw(t, "descriptorOverride") {
